@@ -21,6 +21,8 @@ import (
 	"seehuhn.de/go/sfnt/cff"
 	"seehuhn.de/go/sfnt/glyph"
 	"seehuhn.de/go/sfnt/header"
+	"seehuhn.de/go/sfnt/opentype/classdef"
+	"seehuhn.de/go/sfnt/opentype/gdef"
 	"seehuhn.de/go/sfnt/opentype/gtab"
 	"seehuhn.de/go/sfnt/opentype/gtab/builder"
 
@@ -299,7 +301,7 @@ func c16cold(c *mon.Ctx, idx int, out string) {
 			}
 		}
 	}
-	n := 8
+	n := len(ops) // one goroutine per operation: every pair of operations meets at its first use
 	results := make([][]string, n)
 	var wg sync.WaitGroup
 	gate := make(chan struct{})
@@ -387,6 +389,25 @@ func c16richLayout(r *rand.Rand, f *sfnt.Font) {
 	if len(f.Gsub.FeatureList) > 0 {
 		f.Gsub.FeatureList[0].Lookups = append(f.Gsub.FeatureList[0].Lookups, gtab.LookupIndex(len(f.Gsub.LookupList)-1))
 	}
+	// explicit entries for class 0 (legal in a constructed table, never
+	// produced by the reader): an encoder must not "tidy" the shared maps
+	if f.Gdef == nil {
+		f.Gdef = &gdef.Table{}
+	}
+	if f.Gdef.GlyphClass == nil {
+		f.Gdef.GlyphClass = classdef.Table{}
+	}
+	for i := 0; i < 6; i++ {
+		g := glyph.ID(r.IntN(n))
+		if _, ok := f.Gdef.GlyphClass[g]; !ok {
+			f.Gdef.GlyphClass[g] = 0
+		}
+		if f.Gdef.MarkAttachClass != nil {
+			if _, ok := f.Gdef.MarkAttachClass[g]; !ok {
+				f.Gdef.MarkAttachClass[g] = 0
+			}
+		}
+	}
 }
 
 func runC16(c *mon.Ctx) {
@@ -456,6 +477,7 @@ func runC16(c *mon.Ctx) {
 				c16richLayout(c.Rand("layout", cf.font), f)
 				name += "+contextual-layout"
 				k.Class("font:contextual-layout")
+				k.Class("font:explicit-class-0-entries")
 			}
 			if (cf.font/2)%2 == 1 {
 				// as applications get it: written to a file and read back, so
